@@ -21,6 +21,7 @@ type chooser struct {
 	timed  bool // windows of a few ticks and T steps
 	wild   int  // 0 = always possible steps; n>0: one step in n is not checked for possibility
 	bad    bool // loads that fail in Provision may occur
+	dyn    bool // a configuration with a dynamic source was loaded
 	lat    bool // a configuration with unhealthy_latency was loaded: no clock steps from now on
 	slow   int  // slow answers used (they cost real time)
 	n      int
@@ -88,6 +89,10 @@ func (c *chooser) loadStep(K int) string {
 	}
 	text := fmt.Sprintf("L:%s:%d:%d:%d:%d:%d:%d", keysText(c.keys(K)), p, d, m, rt, q, s)
 	if r.Chance(1, 6) {
+		c.dyn = true
+		if r.Chance(1, 2) {
+			return "Y" + text[1:] + ":" + keysText(c.keys(K)) // …with static upstreams to fall back to
+		}
 		return "Y" + text[1:] // the same options, upstreams from a dynamic source
 	}
 	if !c.timed && c.ticks == 0 && p == 1 && r.Chance(1, 7) {
@@ -162,12 +167,18 @@ func (c *chooser) next(k *kase) (step, bool) {
 				if len(parked) > 0 {
 					text = fmt.Sprintf("A:%d", parked[r.Intn(len(parked))])
 				}
-			case x < 72:
+			case x < 69:
 				key := r.Intn(k.K)
 				if k.backends[key].srv != nil {
 					text = fmt.Sprintf("D:%d", key)
 				} else {
 					text = fmt.Sprintf("U:%d", key)
+				}
+			case x < 74 && c.dyn:
+				if k.srcFails.Load() {
+					text = "E:0"
+				} else {
+					text = "E:1"
 				}
 			case x < 82:
 				text = c.loadStep(k.K)
